@@ -100,8 +100,9 @@ func VHJSONLoad() {
 
 // VHHistory: D operations in a row from the constructor (see VMapHistory).
 func VHHistory() {
-	l := New[int]()
-	lists.VSeqHistory(l, lists.VExt{Name: "ArrayList",
+	init := vl.InitArgs()
+	l := New[int](init...)
+	lists.VSeqHistoryFrom(l, append([]int{}, init...), lists.VExt{Name: "ArrayList",
 		Append:  func(vs ...int) { l.Add(vs...) },
 		Prepend: func(vs ...int) { l.Insert(0, vs...) },
 		IndexOf: l.IndexOf,
